@@ -212,6 +212,20 @@ TyAny(t, op, arg) == IF t \in RefTys THEN TyRef(t, op, arg) ELSE Ty(t, op, arg)
 \* ParseBody(items, i) parses the body of a wrapper from item i; it ends at an `<<<` (consumed), at a
 \* deferred item (NOT consumed: the step boundary closes every open wrapper) or at the end of the branch.
 Node(it, i, inner) == [op |-> it.op, arg |-> it.arg, site |-> i, wrapped |-> it.mv = "wrap", inner |-> inner, shape |-> it.shape]
+\* C01: an operand that is an expression with an evaluation of its own (call, field access, method call, index, if/else, macro
+\* invocation) is evaluated where the documented method chain evaluates it: when the method is called, after everything to its
+\* left in the same expression, once per evaluation of that expression (per item inside a wrapper over an iterator) - except
+\* the operand of `->` and of the sequential `??`, which is the callee / first argument of the emitted call and is therefore
+\* evaluated before the receiver chain, the later operator's first.  (Blocks are captures: CapCalls.  Closures, paths and
+\* references have no evaluation to speak of.)
+EvalShapes == {"call", "field", "method", "index", "ifelse", "macro"}
+HasOpndEv(n) == n.shape \in EvalShapes /\ ~n.wrapped
+IsEarlyNode(n) == HasOpndEv(n) /\ n.op \in {"then", "inspect"}
+OpndEvOf(n) == <<[site |-> n.site, cb |-> "opnd", arg |-> I(0)]>>
+LateEv(n) == IF HasOpndEv(n) /\ ~IsEarlyNode(n) THEN OpndEvOf(n) ELSE <<>>
+RECURSIVE EarlyEvs(_)
+EarlyEvs(nodes) == IF nodes = <<>> THEN <<>>
+                   ELSE EarlyEvs(Tail(nodes)) \o (IF IsEarlyNode(nodes[1]) THEN OpndEvOf(nodes[1]) ELSE <<>>)
 RECURSIVE ParseBody(_, _)
 ParseBody(items, i) ==
   IF i > Len(items) THEN [nodes |-> <<>>, next |-> i, why |-> "end"]
@@ -280,6 +294,7 @@ Call(site, name, x) == <<[site |-> site, cb |-> name, arg |-> IF x.t = "iter" TH
 \* --- lazy pipelines.  Pull returns [tag: "item"|"end", v, p (updated pipe), calls]
 \* Callbacks of stages are node records: primitive (arg) or wrapper closures (inner chain).
 RECURSIVE EvalNodes(_, _)
+RECURSIVE EvalNodes0(_, _)
 RECURSIVE Invoke(_, _)
 RECURSIVE PullAt(_, _)
 RECURSIVE PullAll(_, _, _)
@@ -434,11 +449,13 @@ Apply1(n, x) ==
     [] op = "dot" /\ n.arg = "into_iter" /\ x.t \in {"none", "err"} -> R(Iter(<<>>), <<>>)
     [] op = "dot" /\ n.arg = "len" -> R(I(Len(x.v)), <<>>)
 
-EvalNodes(nodes, x) ==
+EvalNodes0(nodes, x) ==
   IF nodes = <<>> THEN R(x, <<>>)
   ELSE LET a == Apply1(nodes[1], x)
-           b == EvalNodes(Tail(nodes), a.v)
-       IN  R(b.v, a.calls \o b.calls)
+           b == EvalNodes0(Tail(nodes), a.v)
+       IN  R(b.v, LateEv(nodes[1]) \o a.calls \o b.calls)
+\* one expression (the body of a wrapper closure, evaluated once per call of that closure)
+EvalNodes(nodes, x) == LET r == EvalNodes0(nodes, x) IN R(r.v, EarlyEvs(nodes) \o r.calls)
 
 \* C11: an operand written as a {..} block is evaluated once, at the start of the step it belongs to,
 \* before any other expression of that step, in position order (both operands of fold / try_fold).
@@ -453,13 +470,19 @@ CapCalls(items, lo, hi) ==
 NextStepSite(items, nodes, k) ==
   LET later == {q \in (k + 1) .. Len(nodes) : items[nodes[q].site].deferred} IN
   IF later = {} THEN Len(items) + 1 ELSE nodes[CHOOSE q \in later : \A p \in later : q <= p].site
+\* the top-level nodes of the step that starts at node k (one expression)
+StepNodes(items, nodes, k) ==
+  LET later == {q \in (k + 1) .. Len(nodes) : items[nodes[q].site].deferred}
+      e == IF later = {} THEN Len(nodes) ELSE (CHOOSE q \in later : \A p \in later : q <= p) - 1
+  IN  SubSeq(nodes, k, e)
 RECURSIVE EvalSteps(_, _, _, _)
 EvalSteps(items, nodes, k, r) ==     \* r = [v, calls] so far
   IF k > Len(nodes) THEN r
   ELSE LET starts == k = 1 \/ items[nodes[k].site].deferred
-           caps == IF starts THEN CapCalls(items, IF k = 1 THEN 1 ELSE nodes[k].site, NextStepSite(items, nodes, k) - 1) ELSE <<>>
+           caps == IF starts THEN CapCalls(items, IF k = 1 THEN 1 ELSE nodes[k].site, NextStepSite(items, nodes, k) - 1)
+                                   \o EarlyEvs(StepNodes(items, nodes, k)) ELSE <<>>
            a == Apply1(nodes[k], r.v)
-       IN  EvalSteps(items, nodes, k + 1, R(a.v, r.calls \o caps \o a.calls))
+       IN  EvalSteps(items, nodes, k + 1, R(a.v, r.calls \o caps \o LateEv(nodes[k]) \o a.calls))
 
 \* the documented value of the chain on an input: evaluate step by step, then drain iterators
 Eval(c, x) == Drain(EvalSteps(c.items, Desugar(c.items), 1, R(x, <<>>)))
@@ -472,9 +495,10 @@ EvalStepsT(items, nodes, k, r) ==
   IF k > Len(nodes) THEN r
   ELSE LET starts == k = 1 \/ items[nodes[k].site].deferred IN
        IF items[nodes[k].site].deferred /\ Failed(r.v) THEN r      \* (also in front of a chain that begins with `~`)
-       ELSE LET caps == IF starts THEN CapCalls(items, IF k = 1 THEN 1 ELSE nodes[k].site, NextStepSite(items, nodes, k) - 1) ELSE <<>>
+       ELSE LET caps == IF starts THEN CapCalls(items, IF k = 1 THEN 1 ELSE nodes[k].site, NextStepSite(items, nodes, k) - 1)
+                                        \o EarlyEvs(StepNodes(items, nodes, k)) ELSE <<>>
                 a == Apply1(nodes[k], r.v)
-            IN  EvalStepsT(items, nodes, k + 1, R(a.v, r.calls \o caps \o a.calls))
+            IN  EvalStepsT(items, nodes, k + 1, R(a.v, r.calls \o caps \o LateEv(nodes[k]) \o a.calls))
 EvalTry(c, x) == Drain(EvalStepsT(c.items, Desugar(c.items), 1, R(x, <<>>)))
 HasDeferred(c) == \E i \in 1 .. Len(c.items) : c.items[i].deferred
 
